@@ -27,9 +27,10 @@ import NV.Driver.Wedge
 import NV.Driver.SlowRefresh
 import NV.Driver.E2E
 import NV.Driver.EpEq
+import NV.Driver.Failover
 namespace NV
 
-def steppers : List (List String → Option String) := [stepCore, stepCap, stepRaceSoak, stepListen, stepUpfault, Disc.stepDiscovery, Config.stepConfig, stepCache, stepFwd, stepProf, stepTTL, stepFS, stepClientInfo, stepEcs, LocalDrv.stepLocal, stepManager, stepRouter, HostsRefreshDrv.stepHostsRefresh, MgrX.stepMgrX, stepSvcStart, stepWedge, stepSlowRefresh, stepE2E, stepEpEq]
+def steppers : List (List String → Option String) := [stepCore, stepCap, stepRaceSoak, stepListen, stepUpfault, Disc.stepDiscovery, Config.stepConfig, stepCache, stepFwd, stepProf, stepTTL, stepFS, stepClientInfo, stepEcs, LocalDrv.stepLocal, stepManager, stepRouter, HostsRefreshDrv.stepHostsRefresh, MgrX.stepMgrX, stepSvcStart, stepWedge, stepSlowRefresh, stepE2E, stepEpEq, stepFailover]
 
 def step (line : String) : String :=
   let toks := line.splitOn " "
